@@ -6,6 +6,7 @@
     SourceChecks.v) nothing but cJSON_GetErrorPtr reads global_error and nothing but
     cJSON_InitHooks writes global_hooks. *)
 From CJ Require Import Base Dbl Tree LibcNum ParseDefs ParseEntry MinifyDefs CompareDefs PointerDefs Threads.
+From CJ Require PrintDefs PrintEntry PatchDefs MergeDefs Heap CoreDefs CoreOps.
 Local Open Scope Z_scope.
 
 Inductive call : Type :=
@@ -15,7 +16,16 @@ Inductive call : Type :=
 | KCompare (i j : nat) (cs : bool)                        (* cJSON_Compare of two private trees *)
 | KGetPointer (i : nat) (p : bytes) (cs : bool)           (* cJSONUtils_GetPointer[CaseSensitive] *)
 | KFindPointer (i : nat) (target : path)                  (* cJSONUtils_FindPointerFromObjectTo *)
-| KDelete (i : nat).                                      (* cJSON_Delete: the tree leaves the pool *)
+| KDelete (i : nat)                                       (* cJSON_Delete: the tree leaves the pool *)
+| KPrint (i : nat) (fmt : bool)                           (* cJSON_Print / cJSON_PrintUnformatted *)
+| KPrintBuffered (i : nat) (prebuffer : Z) (fmt : bool)   (* cJSON_PrintBuffered *)
+| KPrintPreallocated (i : nat) (buf : bytes) (fmt : bool) (* cJSON_PrintPreallocated into a private buffer *)
+| KApplyPatches (i j : nat) (cs : bool)                   (* cJSONUtils_ApplyPatches[CaseSensitive]: document i is replaced by the result *)
+| KGeneratePatches (i j : nat) (cs : bool)                (* cJSONUtils_GeneratePatches[CaseSensitive]: the patch joins the pool *)
+| KMergePatch (i j : nat) (cs : bool)                     (* cJSONUtils_MergePatch[CaseSensitive] *)
+| KGenerateMergePatch (i j : nat) (cs : bool)             (* cJSONUtils_GenerateMergePatch[CaseSensitive] *)
+| KEdit (o : CoreOps.op).                                 (* any call of the tree API (create, add, detach, insert, replace, set,
+                                                             duplicate, delete, queries) on the thread's private heap *)
 
 Inductive result : Type :=
 | RParse (r : res parse_result)
@@ -24,6 +34,11 @@ Inductive result : Type :=
 | RPath (p : option path)
 | RPtr (p : option bytes)
 | RUnit
+| RPrint (r : res PrintDefs.print_result)
+| RPrealloc (r : res PrintDefs.prealloc_result)
+| RStatus (r : res Z)
+| RTreeOpt (r : res (option node))
+| REdit (r : Heap.out CoreOps.result)
 | RBadHandle.
 
 Definition shared := option nat.     (* global_error: None = {NULL, 0}, Some p = json + p *)
@@ -31,33 +46,100 @@ Definition shared := option nat.     (* global_error: None = {NULL, 0}, Some p =
 Fixpoint remove_nth {A} (i : nat) (l : list A) : list A :=
   match l, i with [] , _ => [] | _ :: r, O => r | x :: r, S i' => x :: remove_nth i' r end.
 
-Definition publish (r : res parse_result) (pool : list node) (g : shared) : result * list node * shared :=
+Record private : Type := mkPriv { pool : list node; hp : Heap.heap; hst : CoreOps.state }.
+Definition with_pool (p : private) (l : list node) : private := mkPriv l (hp p) (hst p).
+Definition empty_private : private := mkPriv [] Heap.empty_heap CoreOps.empty_state.
+
+Fixpoint set_nth {A} (i : nat) (x : A) (l : list A) : list A :=
+  match l, i with [], _ => [] | _ :: r, O => x :: r | y :: r, S i' => y :: set_nth i' x r end.
+
+Definition publish (r : res parse_result) (p : private) (g : shared) : result * private * shared :=
   match r with
-  | Ok pr => (RParse r, match pr_tree pr with Some t => pool ++ [t] | None => pool end, pr_error pr)
-  | _ => (RParse r, pool, g)
+  | Ok pr => (RParse r, with_pool p (match pr_tree pr with Some t => pool p ++ [t] | None => pool p end), pr_error pr)
+  | _ => (RParse r, p, g)
   end.
 
-Definition lib_step (c : call) (pool : list node) (g : shared) : result * list node * shared :=
+Definition lib_step (c : call) (p : private) (g : shared) : result * private * shared :=
   match c with
-  | KParse content len rnt => publish (run_parse_with_length_opts content len rnt 0) pool g
-  | KParseString content rnt => publish (run_parse_with_opts content rnt 0) pool g
-  | KMinify s => (RBytes (cJSON_Minify (s ++ [0])), pool, g)
+  | KParse content len rnt => publish (run_parse_with_length_opts content len rnt 0) p g
+  | KParseString content rnt => publish (run_parse_with_opts content rnt 0) p g
+  | KMinify s => (RBytes (cJSON_Minify (s ++ [0])), p, g)
   | KCompare i j cs =>
-      match nth_error pool i, nth_error pool j with
-      | Some a, Some b => (RBool (cJSON_Compare (Some a) (Some b) (Nat.eqb i j) cs), pool, g)
-      | _, _ => (RBadHandle, pool, g)
+      match nth_error (pool p) i, nth_error (pool p) j with
+      | Some a, Some b => (RBool (cJSON_Compare (Some a) (Some b) (Nat.eqb i j) cs), p, g)
+      | _, _ => (RBadHandle, p, g)
       end
-  | KGetPointer i p cs =>
-      match nth_error pool i with
-      | Some a => (RPath (if cs then cJSONUtils_GetPointerCaseSensitive a p else cJSONUtils_GetPointer a p), pool, g)
-      | None => (RBadHandle, pool, g)
+  | KGetPointer i ptr cs =>
+      match nth_error (pool p) i with
+      | Some a => (RPath (if cs then cJSONUtils_GetPointerCaseSensitive a ptr else cJSONUtils_GetPointer a ptr), p, g)
+      | None => (RBadHandle, p, g)
       end
   | KFindPointer i target =>
-      match nth_error pool i with
-      | Some a => (RPtr (cJSONUtils_FindPointerFromObjectTo a target), pool, g)
-      | None => (RBadHandle, pool, g)
+      match nth_error (pool p) i with
+      | Some a => (RPtr (cJSONUtils_FindPointerFromObjectTo a target), p, g)
+      | None => (RBadHandle, p, g)
       end
-  | KDelete i => (RUnit, remove_nth i pool, g)
+  | KDelete i => (RUnit, with_pool p (remove_nth i (pool p)), g)
+  | KPrint i fmt =>
+      match nth_error (pool p) i with
+      | Some a => (RPrint (PrintEntry.run_print a fmt false 0), p, g)
+      | None => (RBadHandle, p, g)
+      end
+  | KPrintBuffered i pre fmt =>
+      match nth_error (pool p) i with
+      | Some a => (RPrint (PrintEntry.run_print_buffered a pre fmt false 0), p, g)
+      | None => (RBadHandle, p, g)
+      end
+  | KPrintPreallocated i buf fmt =>
+      match nth_error (pool p) i with
+      | Some a => (RPrealloc (PrintEntry.run_print_preallocated a (Some buf) (Z.of_nat (length buf)) fmt), p, g)
+      | None => (RBadHandle, p, g)
+      end
+  | KApplyPatches i j cs =>
+      match nth_error (pool p) i, nth_error (pool p) j with
+      | Some d, Some pa =>
+          match PatchDefs.apply_patches d pa cs with
+          | Ok (st, d', pa') => (RStatus (Ok st), with_pool p (set_nth j pa' (set_nth i d' (pool p))), g)
+          | OOB => (RStatus OOB, p, g)
+          | OutOfFuel => (RStatus OutOfFuel, p, g)
+          end
+      | _, _ => (RBadHandle, p, g)
+      end
+  | KGeneratePatches i j cs =>
+      match nth_error (pool p) i, nth_error (pool p) j with
+      | Some a, Some b =>
+          match PatchDefs.generate_patches a b cs with
+          | Ok (pa, a', b') => (RTreeOpt (Ok (Some pa)), with_pool p (set_nth j b' (set_nth i a' (pool p)) ++ [pa]), g)
+          | OOB => (RTreeOpt OOB, p, g)
+          | OutOfFuel => (RTreeOpt OutOfFuel, p, g)
+          end
+      | _, _ => (RBadHandle, p, g)
+      end
+  | KMergePatch i j cs =>
+      match nth_error (pool p) i, nth_error (pool p) j with
+      | Some t, Some pa =>
+          let r := MergeDefs.mp_MergePatch_gen cs (Some t) (Some pa) in
+          (RTreeOpt (Ok r), with_pool p (match r with Some t' => set_nth i t' (pool p) | None => remove_nth i (pool p) end), g)
+      | _, _ => (RBadHandle, p, g)
+      end
+  | KGenerateMergePatch i j cs =>
+      match nth_error (pool p) i, nth_error (pool p) j with
+      | Some a, Some b =>
+          match MergeDefs.mp_GenerateMergePatch_gen cs (Some a) (Some b) with
+          | Ok (pa, a', b') =>
+              let l1 := match a' with Some x => set_nth i x (pool p) | None => pool p end in
+              let l2 := match b' with Some x => set_nth j x l1 | None => l1 end in
+              (RTreeOpt (Ok pa), with_pool p (match pa with Some x => l2 ++ [x] | None => l2 end), g)
+          | OOB => (RTreeOpt OOB, p, g)
+          | OutOfFuel => (RTreeOpt OutOfFuel, p, g)
+          end
+      | _, _ => (RBadHandle, p, g)
+      end
+  | KEdit o =>
+      match CoreOps.run_op (fun _ => false) (hst p) o (hp p) with
+      | Heap.Ret (r, st', h') => (REdit (Heap.Ret r), mkPriv (pool p) h' st', g)
+      | Heap.Err e => (REdit (Heap.Err e), p, g)
+      end
   end.
 
 Lemma lib_independent : forall c p g g',
@@ -65,17 +147,18 @@ Lemma lib_independent : forall c p g g',
   priv_of _ _ _ (lib_step c p g) = priv_of _ _ _ (lib_step c p g').
 Proof.
   intros c p g g'. unfold res_of, priv_of.
-  destruct c as [content len rnt|content rnt|s|i j cs|i ptr cs|i target|i]; cbn [lib_step].
-  - unfold publish. destruct (run_parse_with_length_opts content len rnt 0) as [pr| |]; cbn; auto.
-  - unfold publish. destruct (run_parse_with_opts content rnt 0) as [pr| |]; cbn; auto.
-  - cbn; auto.
-  - destruct (nth_error p i), (nth_error p j); cbn; auto.
-  - destruct (nth_error p i); cbn; auto.
-  - destruct (nth_error p i); cbn; auto.
-  - cbn; auto.
+  destruct c; cbn [lib_step];
+    repeat match goal with
+           | |- context [publish ?r _ _] => unfold publish; destruct r as [?| |]
+           | |- context [match nth_error ?l ?i with _ => _ end] => destruct (nth_error l i)
+           | |- context [match PatchDefs.apply_patches ?a ?b ?c with _ => _ end] => destruct (PatchDefs.apply_patches a b c) as [[[? ?] ?]| |]
+           | |- context [match PatchDefs.generate_patches ?a ?b ?c with _ => _ end] => destruct (PatchDefs.generate_patches a b c) as [[[? ?] ?]| |]
+           | |- context [match MergeDefs.mp_GenerateMergePatch_gen ?a ?b ?c with _ => _ end] => destruct (MergeDefs.mp_GenerateMergePatch_gen a b c) as [[[? ?] ?]| |]
+           | |- context [match CoreOps.run_op ?a ?b ?c ?d with _ => _ end] => destruct (CoreOps.run_op a b c d) as [[[? ?] ?]|?]
+           end; cbn; auto.
 Qed.
 
-Definition lib_thread := thread (list node) call result.
+Definition lib_thread := thread private call result.
 
 (** every schedule, every set of threads, every initial value of the shared error position *)
 Theorem library_interleaving_invisible : forall sched (ts : list lib_thread) g ts' g',
@@ -93,12 +176,14 @@ Proof. exact (finished_as_alone _ _ _ _ lib_step lib_independent). Qed.
 (** non-vacuity: two threads, one parsing a malformed text (which publishes an error position)
     while the other parses, compares and resolves a pointer; an interleaved schedule gives each
     thread the results of its run alone, although the shared error position differs *)
-Definition ex_t1 : lib_thread := mkT _ _ _ [] [KParse [91; 49; 44] 3 false; KParse [91; 49; 93] 3 false; KCompare 0 0 true] [].
-Definition ex_t2 : lib_thread := mkT _ _ _ [] [KParse [123; 34; 97; 34; 58; 91; 50; 93; 125] 9 false; KGetPointer 0 [47; 97; 47; 48] true; KMinify [91; 32; 49; 32; 93]] [].
-Definition ex_sched : list nat := [0; 1; 1; 0; 0; 1]%nat.
+Definition ex_t1 : lib_thread := mkT _ _ _ empty_private [KParse [91; 49; 44] 3 false; KParse [91; 49; 93] 3 false; KCompare 0 0 true; KPrint 0 false;
+   KEdit CoreOps.OCreateArray; KEdit (CoreOps.OCreateNumber (S754_zero false)); KEdit (CoreOps.OAddItemToArray (CoreOps.IH 0) (CoreOps.IH 1))] [].
+Definition ex_t2 : lib_thread := mkT _ _ _ empty_private [KParse [123; 34; 97; 34; 58; 91; 50; 93; 125] 9 false; KGetPointer 0 [47; 97; 47; 48] true; KMinify [91; 32; 49; 32; 93];
+   KParse [123; 34; 97; 34; 58; 91; 50; 44; 51; 93; 125] 11 false; KGenerateMergePatch 0 1 true; KGeneratePatches 0 1 true] [].
+Definition ex_sched : list nat := [0; 1; 1; 0; 0; 1; 1; 0; 1; 0; 0; 1; 0]%nat.
 Lemma ex_interleaved :
   let '(ts', g') := run _ _ _ _ lib_step ex_sched ([ex_t1; ex_t2], None) in
-  nth_error ts' 0 = Some (fst (alone _ _ _ _ lib_step 3 ex_t1 None)) /\
-  nth_error ts' 1 = Some (fst (alone _ _ _ _ lib_step 3 ex_t2 (Some 7%nat))) /\
+  nth_error ts' 0 = Some (fst (alone _ _ _ _ lib_step 7 ex_t1 None)) /\
+  nth_error ts' 1 = Some (fst (alone _ _ _ _ lib_step 6 ex_t2 (Some 7%nat))) /\
   snd (alone _ _ _ _ lib_step 1 ex_t1 None) = Some 2%nat /\ g' = None.
 Proof. vm_compute. repeat split. Qed.
